@@ -127,9 +127,11 @@ func MergeAll[T any]() func(Observable[Observable[T]]) Observable[T] {
 
 				// when equal to 0, it means both the outer and inner Observables are done
 				if newCount == 0 {
+					verifPoint("operator_combining:MergeAll:lock#0", nil)
 					parentCtxMu.Lock()
 					destination.CompleteWithContext(parentCtx)
 					parentCtxMu.Unlock()
+					verifPoint("operator_combining:MergeAll:unlocked#0", nil)
 				}
 			}
 
@@ -155,9 +157,11 @@ func MergeAll[T any]() func(Observable[Observable[T]]) Observable[T] {
 						},
 						destination.ErrorWithContext,
 						func(ctx context.Context) {
+							verifPoint("operator_combining:MergeAll:lock#1", nil)
 							parentCtxMu.Lock()
 							parentCtx = ctx
 							parentCtxMu.Unlock()
+							verifPoint("operator_combining:MergeAll:unlocked#1", nil)
 
 							onDone()
 						},
@@ -1023,7 +1027,9 @@ func RaceWith[T any](sources ...Observable[T]) func(Observable[T]) Observable[T]
 			mu := sync.Mutex{}
 
 			unsubscribeOthers := func(except int) {
+				verifPoint("operator_combining:RaceWith:lock#0", nil)
 				mu.Lock()
+				defer verifPoint("operator_combining:RaceWith:ret#0", nil)
 				defer mu.Unlock()
 
 				unsubscription := NewSubscription(nil)
@@ -1073,6 +1079,7 @@ func RaceWith[T any](sources ...Observable[T]) func(Observable[T]) Observable[T]
 				hasWinner := winner != -1
 				isWinner := hasWinner && winner == int32(j)
 
+				verifPoint("operator_combining:RaceWith:lock#1", nil)
 				mu.Lock()
 				if !hasWinner {
 					// No winner yet, store the subscription
@@ -1083,6 +1090,7 @@ func RaceWith[T any](sources ...Observable[T]) func(Observable[T]) Observable[T]
 				}
 				// If this source won, keep the subscription active
 				mu.Unlock()
+				verifPoint("operator_combining:RaceWith:unlocked#0", nil)
 			}
 
 			return func() {
@@ -1104,34 +1112,41 @@ func zipInnerSubscription[T any](subscriberCtx context.Context, obs Observable[T
 			subscriberCtx,
 			NewObserverWithContext(
 				func(ctx context.Context, v T) {
+					verifPoint("operator_combining:zipInnerSubscription:lock#0", nil)
 					mu.Lock()
 
 					*values = append(*values, &v)
 
 					mu.Unlock()
+					verifPoint("operator_combining:zipInnerSubscription:unlocked#0", nil)
 
 					onUpdate(ctx)
 				},
 				func(ctx context.Context, err error) {
+					verifPoint("operator_combining:zipInnerSubscription:lock#1", nil)
 					mu.Lock()
 
 					*completed = true
 
 					mu.Unlock()
+					verifPoint("operator_combining:zipInnerSubscription:unlocked#1", nil)
 
 					destination.ErrorWithContext(ctx, err)
 					subscriptions.Unsubscribe()
 				},
 				func(ctx context.Context) {
+					verifPoint("operator_combining:zipInnerSubscription:lock#2", nil)
 					mu.Lock()
 
 					*completed = true
 
 					if len(*values) == 0 {
 						mu.Unlock()
+						verifPoint("operator_combining:zipInnerSubscription:unlocked#2", nil)
 						destination.CompleteWithContext(ctx)
 					} else {
 						mu.Unlock()
+						verifPoint("operator_combining:zipInnerSubscription:unlocked#3", nil)
 					}
 
 					subscriptions.Unsubscribe()
@@ -1168,6 +1183,7 @@ func ZipWith1[A, B any](obsB Observable[B]) func(Observable[A]) Observable[lo.Tu
 			var completedB bool
 
 			onUpdate := func(ctx context.Context) {
+				verifPoint("operator_combining:ZipWith1:lock#0", nil)
 				mu.Lock()
 
 				if len(valueA) > 0 && len(valueB) > 0 {
@@ -1180,6 +1196,7 @@ func ZipWith1[A, B any](obsB Observable[B]) func(Observable[A]) Observable[lo.Tu
 
 					destination.NextWithContext(ctx, lo.T2(*a, *b)) // @TODO: Send the last context ?
 
+					verifPoint("operator_combining:ZipWith1:lock#1", nil)
 					mu.Lock()
 
 					if (completedA && len(valueA) == 0) ||
@@ -1189,6 +1206,7 @@ func ZipWith1[A, B any](obsB Observable[B]) func(Observable[A]) Observable[lo.Tu
 				}
 
 				mu.Unlock()
+				verifPoint("operator_combining:ZipWith1:unlocked#0", nil)
 			}
 
 			subscriptions := NewSubscription(nil)
@@ -1199,6 +1217,7 @@ func ZipWith1[A, B any](obsB Observable[B]) func(Observable[A]) Observable[lo.Tu
 				subscriptions.Unsubscribe()
 
 				// free memory
+				verifPoint("operator_combining:ZipWith1:lock#2", nil)
 				mu.Lock()
 
 				completedA = true
@@ -1207,6 +1226,7 @@ func ZipWith1[A, B any](obsB Observable[B]) func(Observable[A]) Observable[lo.Tu
 				valueB = nil
 
 				mu.Unlock()
+				verifPoint("operator_combining:ZipWith1:unlocked#1", nil)
 			}
 		})
 	}
@@ -1232,6 +1252,7 @@ func ZipWith2[A, B, C any](obsB Observable[B], obsC Observable[C]) func(Observab
 			var completedC bool
 
 			onUpdate := func(ctx context.Context) {
+				verifPoint("operator_combining:ZipWith2:lock#0", nil)
 				mu.Lock()
 
 				if len(valueA) > 0 && len(valueB) > 0 && len(valueC) > 0 {
@@ -1246,6 +1267,7 @@ func ZipWith2[A, B, C any](obsB Observable[B], obsC Observable[C]) func(Observab
 
 					destination.NextWithContext(ctx, lo.T3(*a, *b, *c)) // @TODO: Send the last context ?
 
+					verifPoint("operator_combining:ZipWith2:lock#1", nil)
 					mu.Lock()
 
 					if (completedA && len(valueA) == 0) ||
@@ -1256,6 +1278,7 @@ func ZipWith2[A, B, C any](obsB Observable[B], obsC Observable[C]) func(Observab
 				}
 
 				mu.Unlock()
+				verifPoint("operator_combining:ZipWith2:unlocked#0", nil)
 			}
 
 			subscriptions := NewSubscription(nil)
@@ -1267,6 +1290,7 @@ func ZipWith2[A, B, C any](obsB Observable[B], obsC Observable[C]) func(Observab
 				subscriptions.Unsubscribe()
 
 				// free memory
+				verifPoint("operator_combining:ZipWith2:lock#2", nil)
 				mu.Lock()
 
 				completedA = true
@@ -1277,6 +1301,7 @@ func ZipWith2[A, B, C any](obsB Observable[B], obsC Observable[C]) func(Observab
 				valueC = nil
 
 				mu.Unlock()
+				verifPoint("operator_combining:ZipWith2:unlocked#1", nil)
 			}
 		})
 	}
@@ -1303,6 +1328,7 @@ func ZipWith3[A, B, C, D any](obsB Observable[B], obsC Observable[C], obsD Obser
 			var completedD bool
 
 			onUpdate := func(ctx context.Context) {
+				verifPoint("operator_combining:ZipWith3:lock#0", nil)
 				mu.Lock()
 
 				if len(valueA) > 0 && len(valueB) > 0 && len(valueC) > 0 && len(valueD) > 0 {
@@ -1319,6 +1345,7 @@ func ZipWith3[A, B, C, D any](obsB Observable[B], obsC Observable[C], obsD Obser
 
 					destination.NextWithContext(ctx, lo.T4(*a, *b, *c, *d)) // @TODO: Send the last context ?
 
+					verifPoint("operator_combining:ZipWith3:lock#1", nil)
 					mu.Lock()
 
 					if (completedA && len(valueA) == 0) ||
@@ -1330,6 +1357,7 @@ func ZipWith3[A, B, C, D any](obsB Observable[B], obsC Observable[C], obsD Obser
 				}
 
 				mu.Unlock()
+				verifPoint("operator_combining:ZipWith3:unlocked#0", nil)
 			}
 
 			subscriptions := NewSubscription(nil)
@@ -1342,6 +1370,7 @@ func ZipWith3[A, B, C, D any](obsB Observable[B], obsC Observable[C], obsD Obser
 				subscriptions.Unsubscribe()
 
 				// free memory
+				verifPoint("operator_combining:ZipWith3:lock#2", nil)
 				mu.Lock()
 
 				completedA = true
@@ -1354,6 +1383,7 @@ func ZipWith3[A, B, C, D any](obsB Observable[B], obsC Observable[C], obsD Obser
 				valueD = nil
 
 				mu.Unlock()
+				verifPoint("operator_combining:ZipWith3:unlocked#1", nil)
 			}
 		})
 	}
@@ -1382,6 +1412,7 @@ func ZipWith4[A, B, C, D, E any](obsB Observable[B], obsC Observable[C], obsD Ob
 			var completedE bool
 
 			onUpdate := func(ctx context.Context) {
+				verifPoint("operator_combining:ZipWith4:lock#0", nil)
 				mu.Lock()
 
 				if len(valueA) > 0 && len(valueB) > 0 && len(valueC) > 0 && len(valueD) > 0 && len(valueE) > 0 {
@@ -1400,6 +1431,7 @@ func ZipWith4[A, B, C, D, E any](obsB Observable[B], obsC Observable[C], obsD Ob
 
 					destination.NextWithContext(ctx, lo.T5(*a, *b, *c, *d, *e)) // @TODO: Send the last context ?
 
+					verifPoint("operator_combining:ZipWith4:lock#1", nil)
 					mu.Lock()
 
 					if (completedA && len(valueA) == 0) ||
@@ -1412,6 +1444,7 @@ func ZipWith4[A, B, C, D, E any](obsB Observable[B], obsC Observable[C], obsD Ob
 				}
 
 				mu.Unlock()
+				verifPoint("operator_combining:ZipWith4:unlocked#0", nil)
 			}
 
 			subscriptions := NewSubscription(nil)
@@ -1425,6 +1458,7 @@ func ZipWith4[A, B, C, D, E any](obsB Observable[B], obsC Observable[C], obsD Ob
 				subscriptions.Unsubscribe()
 
 				// free memory
+				verifPoint("operator_combining:ZipWith4:lock#2", nil)
 				mu.Lock()
 
 				completedA = true
@@ -1439,6 +1473,7 @@ func ZipWith4[A, B, C, D, E any](obsB Observable[B], obsC Observable[C], obsD Ob
 				valueE = nil
 
 				mu.Unlock()
+				verifPoint("operator_combining:ZipWith4:unlocked#1", nil)
 			}
 		})
 	}
@@ -1470,6 +1505,7 @@ func ZipWith5[A, B, C, D, E, F any](obsB Observable[B], obsC Observable[C], obsD
 			var completedF bool
 
 			onUpdate := func(ctx context.Context) {
+				verifPoint("operator_combining:ZipWith5:lock#0", nil)
 				mu.Lock()
 
 				if len(valueA) > 0 && len(valueB) > 0 && len(valueC) > 0 && len(valueD) > 0 && len(valueE) > 0 && len(valueF) > 0 {
@@ -1490,6 +1526,7 @@ func ZipWith5[A, B, C, D, E, F any](obsB Observable[B], obsC Observable[C], obsD
 
 					destination.NextWithContext(ctx, lo.T6(*a, *b, *c, *d, *e, *f)) // @TODO: Send the last context ?
 
+					verifPoint("operator_combining:ZipWith5:lock#1", nil)
 					mu.Lock()
 
 					if (completedA && len(valueA) == 0) ||
@@ -1503,6 +1540,7 @@ func ZipWith5[A, B, C, D, E, F any](obsB Observable[B], obsC Observable[C], obsD
 				}
 
 				mu.Unlock()
+				verifPoint("operator_combining:ZipWith5:unlocked#0", nil)
 			}
 
 			subscriptions := NewSubscription(nil)
@@ -1517,6 +1555,7 @@ func ZipWith5[A, B, C, D, E, F any](obsB Observable[B], obsC Observable[C], obsD
 				subscriptions.Unsubscribe()
 
 				// free memory
+				verifPoint("operator_combining:ZipWith5:lock#2", nil)
 				mu.Lock()
 
 				completedA = true
@@ -1533,6 +1572,7 @@ func ZipWith5[A, B, C, D, E, F any](obsB Observable[B], obsC Observable[C], obsD
 				valueF = nil
 
 				mu.Unlock()
+				verifPoint("operator_combining:ZipWith5:unlocked#1", nil)
 			}
 		})
 	}
@@ -1545,6 +1585,7 @@ func zipAllInnerSubscriptions[T any](outerCtx context.Context, sources []Observa
 	completed := make([]bool, len(sources))
 
 	onUpdate := func(ctx context.Context) {
+		verifPoint("operator_combining:zipAllInnerSubscriptions:lock#0", nil)
 		mu.Lock()
 
 		hasEmptyQueue := false
@@ -1567,6 +1608,7 @@ func zipAllInnerSubscriptions[T any](outerCtx context.Context, sources []Observa
 
 			destination.NextWithContext(ctx, result) // @TODO: Send the last context ?
 
+			verifPoint("operator_combining:zipAllInnerSubscriptions:lock#1", nil)
 			mu.Lock()
 
 			for i := range sources {
@@ -1578,6 +1620,7 @@ func zipAllInnerSubscriptions[T any](outerCtx context.Context, sources []Observa
 		}
 
 		mu.Unlock()
+		verifPoint("operator_combining:zipAllInnerSubscriptions:unlocked#0", nil)
 	}
 
 	subscriptions := NewSubscription(nil)
@@ -1591,12 +1634,14 @@ func zipAllInnerSubscriptions[T any](outerCtx context.Context, sources []Observa
 		subscriptions.Unsubscribe()
 
 		// free memory
+		verifPoint("operator_combining:zipAllInnerSubscriptions:lock#2", nil)
 		mu.Lock()
 
 		completed = nil
 		values = nil
 
 		mu.Unlock()
+		verifPoint("operator_combining:zipAllInnerSubscriptions:unlocked#1", nil)
 	}
 }
 
